@@ -318,6 +318,7 @@ func init() {
 	for _, r := range gen.OddRunes {
 		alphabet = append(alphabet, string(r), "n"+string(r), string(r)+"m")
 	}
+	alphabet = append(alphabet, gen.CaseShiftingWords()...)
 	for i, r := range gen.OddRunes {
 		if i%4 == 0 {
 			alphabet = append(alphabet, "\""+string(r)+"\"", "# "+string(r)+"\n", "`"+string(r)+"`")
